@@ -231,13 +231,15 @@ func runSCIONServer(ctx context.Context, log *slog.Logger, mtrcs *scionServerMet
 			continue
 		}
 
+		// A service address has the length of an IPv4 address: go by the address
+		// type, not only by the length.
 		srcAddr, ok := netip.AddrFromSlice(scionLayer.RawSrcAddr)
-		if !ok {
+		if !ok || scionLayer.SrcAddrType != slayers.T4Ip && scionLayer.SrcAddrType != slayers.T16Ip {
 			log.LogAttrs(ctx, slog.LevelInfo, "failed to decode packet", slog.String("cause", "unexpected source address type"))
 			continue
 		}
 		dstAddr, ok := netip.AddrFromSlice(scionLayer.RawDstAddr)
-		if !ok {
+		if !ok || scionLayer.DstAddrType != slayers.T4Ip && scionLayer.DstAddrType != slayers.T16Ip {
 			log.LogAttrs(ctx, slog.LevelInfo, "failed to decode packet", slog.String("cause", "unexpected destination address type"))
 			continue
 		}
